@@ -104,7 +104,7 @@ def main():
             "id": sid,
             "property_broken": pid,
             "author": "independent sub-agent given only the property text and its own scratch worktree (/tmp/seed-%s or /tmp/seed2-%s; recreate with `git -C /repo worktree add --detach <dir> HEAD` to run demo.py)" % (pid, pid),
-            "round": 1 if int(i) <= 2 else 2,
+            "round": (int(i) + 1) // 2,
             "needs_to_manifest": needs,
             "files": {"patch": "patch.diff", "demonstration": "demo.py", "author_notes": "notes.md"},
             "confirmed_by_me": {
